@@ -24,6 +24,13 @@ type pl struct {
 	isMain  bool // bytes of the producer's main record
 	emptied bool
 	dup     bool
+	origTyp colarspb.ArrowPayloadType
+	// rekeyed: the bytes were given an id that is NOT open at the consumer (unknown, or retired). A consumer
+	// that reaches such a payload releases every reader of the payload's (label) type before it tries to open
+	// the new id - so it retires the reader of origID ITSELF, and a later payload under origID can only be
+	// refused. If the consumer never reached the payload (an earlier payload of the batch failed), the reader
+	// of origID silently missed a message: a gap.
+	rekeyed bool
 }
 
 type retiredID struct {
@@ -115,7 +122,7 @@ func applyFault(list []pl, f fault, retired []retiredID, lost map[string]bool) [
 		list[i].emptied = true
 		lost[list[i].origID] = true
 	case "unknown-id":
-		lost[list[i].origID] = true
+		list[i].rekeyed = true
 		list[i].id = fmt.Sprintf("unknown-%d", i)
 	case "stale-id":
 		// Arg 0,1,2: the most recently retired ids of this payload's own type; Arg 99: of another type
@@ -256,7 +263,7 @@ func runFaulty(c *vc.Case, st *c07Stream, sig canon.Signal, target int, faults [
 	src := st.bars[target]
 	list := make([]pl, 0, len(src.ArrowPayloads))
 	for i, p := range src.ArrowPayloads {
-		list = append(list, pl{origID: p.SchemaId, id: p.SchemaId, typ: p.Type, rec: append([]byte(nil), p.Record...), isMain: i == 0})
+		list = append(list, pl{origID: p.SchemaId, id: p.SchemaId, typ: p.Type, origTyp: p.Type, rec: append([]byte(nil), p.Record...), isMain: i == 0})
 	}
 	lost := map[string]bool{}
 	for _, f := range faults {
@@ -323,6 +330,16 @@ func runFaulty(c *vc.Case, st *c07Stream, sig canon.Signal, target int, faults [
 			gap[id] = true
 		}
 	}
+	for idx, p := range list {
+		if p.rekeyed {
+			aware := idx <= nFed && p.typ == p.origTyp && p.id != p.origID
+			if aware {
+				c.Count("rekeyed_payloads_whose_old_reader_the_consumer_retired_itself", 1)
+			} else if wasOpen(p.origID) {
+				gap[p.origID] = true
+			}
+		}
+	}
 	for _, p := range list {
 		// payloads the consumer did not feed to their readers because an earlier payload of the batch
 		// failed are NOT a gap it is unaware of: it knows it stopped there (and must cope with it)
@@ -373,11 +390,11 @@ func TestC07(t *testing.T) {
 	yes := true
 	r.Meta(vc.Meta{
 		Level:       "fault_enumeration",
-		Rule:        "case = (signal, valid prefix of 0/1/3 batches, target batch, fault list, two further well-formed batches) replayed into a fresh Consumer. Layer 'single' enumerates EVERY single payload-level fault of the target batch: relabel payload i to each of the known payload types and to an unknown enum value, drop i, duplicate i (adjacent / at end), move i to front / back, reverse, rotate, empty i (nil and zero-length), unknown schema id, stale (retired) schema id. Layer 'combo' = PRNG-chosen combinations of 2-4 faults. Oracle: the no-fault control decodes completely; on the faulty batch no panic, and err==nil with the intact main payload present requires all its rows (and err==nil is not acceptable at all when the intact main payload is present under another label only); on later well-formed batches no panic provided the fault left the sub-streams they continue gap-free and duplicate-free (otherwise counted as out_of_domain_post_gap and not asserted). Non-trivial = every fault case; distinct = (signal, prefix, fault list).",
+		Rule:        "case = (signal, valid prefix of 0/1/3 batches, target batch, fault list, two further well-formed batches) replayed into a fresh Consumer. Layer 'single' enumerates EVERY single payload-level fault of the target batch: relabel payload i to each of the known payload types and to an unknown enum value, drop i, duplicate i (adjacent / at end), move i to front / back, reverse, rotate, empty i (nil and zero-length), unknown schema id, stale (retired) schema id. Layer 'combo' = PRNG-chosen combinations of 2-4 faults. Layer 'refused-stream' = a 300-batch stream in which nine batches of ten have one payload of an open sub-stream relabelled (refused, readers in step) and every tenth is intact and must decode completely, under a 4 MiB consumer memory limit (ten times the stream's need). Oracle: the no-fault control decodes completely; on the faulty batch no panic, and err==nil with the intact main payload present requires all its rows (and err==nil is not acceptable at all when the intact main payload is present under another label only); on later well-formed batches no panic provided the fault left the sub-streams they continue gap-free and duplicate-free (otherwise counted as out_of_domain_post_gap and not asserted). Non-trivial = every fault case; distinct = (signal, prefix, fault list).",
 		Assumptions: []string{"byte splicing between sub-streams and bit flips inside IPC buffers are outside the property's domain and not generated", "which payloads the consumer fed to its readers is inferred from the arrow_batch_records metric it publishes"},
 		Gates: map[string]map[string]int{
-			"quick":    {"faulty_batches_decoded": 2000, "followers.in_domain_decoded": 500, "outcome.error": 500},
-			"thorough": {"faulty_batches_decoded": 20000, "followers.in_domain_decoded": 5000, "outcome.error": 5000},
+			"quick":    {"faulty_batches_decoded": 2000, "followers.in_domain_decoded": 500, "outcome.error": 500, "refused_stream_batches_refused": 800},
+			"thorough": {"faulty_batches_decoded": 20000, "followers.in_domain_decoded": 5000, "outcome.error": 5000, "refused_stream_batches_refused": 15000},
 		},
 		Exhaustive:       nil,
 		ExhaustiveLayers: []string{"single (all single payload-level faults of the target batch, per signal x prefix length)"},
@@ -424,6 +441,92 @@ func TestC07(t *testing.T) {
 			c.Sample(map[string]any{"signal": sig.String(), "prefix_batches": prefix, "payloads_in_target": n, "single_faults_enumerated": len(fs),
 				"example_faults": []string{fs[0].String(), fs[len(fs)/2].String(), fs[len(fs)-1].String()}})
 		}
+	})
+	// "Given a well-formed batch on a healthy stream the consumer returns all of its telemetry" - also after a
+	// long history of damaged batches that it refused. Every batch of a 300-batch stream has ONE payload of an
+	// already open sub-stream relabelled (the bytes still reach their own IPC readers, which therefore stay in
+	// step: the stream remains healthy); every tenth batch is left intact and must decode completely. The
+	// consumer runs under a 4 MiB memory limit, more than ten times what such a stream needs (measured peak
+	// 0.15-0.25 MiB): refusing batches must not cost anything that is never given back.
+	r.Layer("refused-stream", e.Pick(6, 60), func(c *vc.Case) {
+		sig := canon.Signal(c.Idx % 3)
+		g := gen.New(c.R, gen.DValid)
+		g.Carve, _ = carveFor("C07")
+		nb := e.Pick(300, 600)
+		meter := NewRecMeter()
+		s := NewStream(DefaultOpts(), arrow_record.WithMemoryLimit(4<<20), arrow_record.WithMeterProvider(meter))
+		defer s.Close()
+		opened := map[string]bool{}
+		refused, intact := 0, 0
+		for k := 0; k < nb; k++ {
+			g.ZeroBias = []float64{0.2, 0.5, 0.8}[k%3]
+			b := genBatch(g, sig, 6+c.R.IntN(14))
+			want, err := b.Canon()
+			if err != nil {
+				c.Inconclusive("canon(input): " + err.Error())
+				return
+			}
+			bar, err, pi := s.Encode(b)
+			if pi != nil || err != nil {
+				c.Count("control_producer_failed(not this property)", 1)
+				return
+			}
+			bar = CloneBar(bar)
+			// candidates: related payloads whose sub-stream is already open at the consumer
+			var cand []int
+			for i, p := range bar.ArrowPayloads {
+				if i > 0 && opened[p.SchemaId] {
+					cand = append(cand, i)
+				}
+			}
+			faulty := k%10 != 9 && len(cand) > 0
+			desc := "intact"
+			if faulty {
+				i := cand[c.R.IntN(len(cand))]
+				t := colarspb.ArrowPayloadType(knownTypes[c.R.IntN(len(knownTypes))])
+				for t == bar.ArrowPayloads[i].Type || t == mainType[sig] {
+					t = colarspb.ArrowPayloadType(knownTypes[c.R.IntN(len(knownTypes))])
+				}
+				desc = fmt.Sprintf("payload %d relabelled %v -> %v", i, bar.ArrowPayloads[i].Type, t)
+				bar.ArrowPayloads[i].Type = t
+			}
+			items, derr, dpi := DecodeCount(s.C, sig, bar)
+			w := witness(&History{Script: "refused-stream", Batches: []Batch{b}}, 0, DefaultOpts(), map[string]any{"batch_index_in_stream": k, "fault": desc, "refused_so_far": refused})
+			if dpi != nil {
+				c.Violation("refused-stream: consumer "+dpi.Signature(), desc+"\n"+dpi.Value+"\n"+clip(dpi.Stack, 2500), w)
+				return
+			}
+			if faulty {
+				if derr != nil {
+					refused++
+				} else {
+					c.Count("relabelled_batches_decoded_without_error", 1)
+				}
+			} else {
+				intact++
+				if derr != nil {
+					c.Violation("well-formed batch on a healthy stream refused after a history of refused batches: "+clip(stripNums(derr.Error()), 90),
+						fmt.Sprintf("batch %d of the stream (intact) after %d refused batches: %v", k, refused, derr), w)
+					return
+				}
+				if items != len(want.Items) {
+					c.Violation("well-formed batch on a healthy stream not decoded completely after a history of refused batches",
+						fmt.Sprintf("batch %d of the stream (intact) after %d refused batches: %d items returned, %d encoded", k, refused, items, len(want.Items)), w)
+					return
+				}
+			}
+			if derr == nil || !faulty {
+				for _, p := range bar.ArrowPayloads {
+					opened[p.SchemaId] = true
+				}
+			}
+		}
+		c.Count("refused_stream_batches_refused", int64(refused))
+		c.Count("refused_stream_intact_batches_decoded", int64(intact))
+		c.Max("max_consumer_memory_inuse_on_a_refused_stream_bytes", meter.InuseMax)
+		c.FP("refused-stream", sig.String(), fmt.Sprint(c.Idx))
+		c.Nontrivial(refused > 0)
+		c.Sample(map[string]any{"layer": "refused-stream", "signal": sig.String(), "batches": nb, "refused": refused, "intact_decoded": intact, "max_consumer_memory_inuse": meter.InuseMax})
 	})
 	r.Layer("combo", e.Pick(300, 10000), func(c *vc.Case) {
 		sig := canon.Signal(c.R.IntN(3))
